@@ -216,4 +216,74 @@ theorem mayBindNs_congr {a b : State} (hq : b.quads = a.quads) (hu : b.defaultUn
   have hv : b.visible = a.visible := by unfold State.visible; rw [hq, hu, hd]
   cases r <;> simp only [ReadOp.mayBindNs, hv, hq, hi]
 
+/-! ### `transitive_objects` / `transitive_subjects` -/
+
+theorem transWalk_mono (ts : List Triple) (p : Nat) (fwd : Bool) :
+    ∀ (n : Nat) (stack seen : List Nat) (y : Nat), y ∈ seen → y ∈ transWalk ts p fwd n stack seen
+  | 0, _, _, _, h => h
+  | _ + 1, [], _, _, h => h
+  | n + 1, x :: stack, seen, y, h => by
+    unfold transWalk
+    split
+    · exact transWalk_mono ts p fwd n stack seen y h
+    · exact transWalk_mono ts p fwd n _ _ y (List.mem_append_left _ h)
+
+theorem transWalk_start (ts : List Triple) (p : Nat) (fwd : Bool) (n x : Nat) (stack seen : List Nat) :
+    x ∈ transWalk ts p fwd (n + 1) (x :: stack) seen := by
+  unfold transWalk
+  split
+  · next h => exact transWalk_mono ts p fwd n stack seen x (by simpa using h)
+  · exact transWalk_mono ts p fwd n _ _ x (List.mem_append_right _ (List.mem_singleton.mpr rfl))
+
+theorem mem_stepNodes {ts : List Triple} {p : Nat} {fwd : Bool} {x y : Nat} (h : y ∈ stepNodes ts p fwd x) :
+    ∃ t ∈ ts, t.2.1 = p ∧ y = (if fwd then t.2.2 else t.1) := by
+  unfold stepNodes at h
+  cases fwd with
+  | true =>
+    simp only [if_true, List.mem_map, List.mem_filter, Bool.and_eq_true, beq_iff_eq] at h
+    obtain ⟨t, ⟨ht, _, hp⟩, rfl⟩ := h
+    exact ⟨t, ht, hp, rfl⟩
+  | false =>
+    simp only [Bool.false_eq_true, if_false, List.mem_map, List.mem_filter, Bool.and_eq_true, beq_iff_eq] at h
+    obtain ⟨t, ⟨ht, _, hp⟩, rfl⟩ := h
+    exact ⟨t, ht, hp, rfl⟩
+
+/-- everything the walk yields is the start (on the stack), was remembered before, or is a `p`-neighbour of some triple -/
+theorem transWalk_sound (ts : List Triple) (p : Nat) (fwd : Bool) :
+    ∀ (n : Nat) (stack seen : List Nat) (y : Nat), y ∈ transWalk ts p fwd n stack seen →
+      y ∈ seen ∨ y ∈ stack ∨ ∃ t ∈ ts, t.2.1 = p ∧ y = (if fwd then t.2.2 else t.1)
+  | 0, _, _, _, h => Or.inl h
+  | _ + 1, [], _, _, h => Or.inl h
+  | n + 1, x :: stack, seen, y, h => by
+    unfold transWalk at h
+    split at h
+    · rcases transWalk_sound ts p fwd n stack seen y h with h1 | h1 | h1
+      · exact Or.inl h1
+      · exact Or.inr (Or.inl (List.mem_cons_of_mem _ h1))
+      · exact Or.inr (Or.inr h1)
+    · rcases transWalk_sound ts p fwd n _ _ y h with h1 | h1 | h1
+      · rcases List.mem_append.mp h1 with h2 | h2
+        · exact Or.inl h2
+        · exact Or.inr (Or.inl (by rw [List.mem_singleton.mp h2]; exact List.mem_cons_self))
+      · rcases List.mem_append.mp h1 with h2 | h2
+        · exact Or.inr (Or.inr (mem_stepNodes h2))
+        · exact Or.inr (Or.inl (List.mem_cons_of_mem _ h2))
+      · exact Or.inr (Or.inr h1)
+
+/-- every node is yielded once (`remember`) -/
+theorem transWalk_nodup (ts : List Triple) (p : Nat) (fwd : Bool) :
+    ∀ (n : Nat) (stack seen : List Nat), seen.Nodup → (transWalk ts p fwd n stack seen).Nodup
+  | 0, _, _, h => h
+  | _ + 1, [], _, h => h
+  | n + 1, x :: stack, seen, h => by
+    unfold transWalk
+    split
+    · exact transWalk_nodup ts p fwd n stack seen h
+    · next hx =>
+      have hx' : x ∉ seen := by simpa using hx
+      have : (seen ++ [x]).Nodup := by
+        rw [← sinsert_of_not_mem hx']
+        exact nodup_sinsert h
+      exact transWalk_nodup ts p fwd n _ _ this
+
 end RV.C13
